@@ -172,28 +172,38 @@ def vo_exists(rel):
 
 
 def proof_status(prop_file, coq_log):
-    """Obligations = Theorems in Props/<prop_file>; discharged = all of them iff the .vo exists
-    and `Print Assumptions` printed 'Closed under the global context' for each."""
+    """Obligations = the Theorems/Corollaries of Props/<prop_file>.  A theorem counts as discharged when the
+    compiled file exists and `Print Assumptions` (asked here for every one of them, whatever the file itself
+    prints) answers 'Closed under the global context'; any axiom is reported and counts as not discharged."""
     path = os.path.join(COQ, "Props", prop_file)
     txt = open(path).read()
     thms = re.findall(r"^\s*(?:Theorem|Corollary)\s+(\w+)", txt, re.M)
-    ok = vo_exists(os.path.join("Props", prop_file))
-    assumptions = {}
-    # `Print Assumptions` output is in the make log (only when rebuilt); keep a side file
-    side = os.path.join(BUILD, "assumptions_" + prop_file + ".txt")
-    if ok and not os.path.exists(side) or (ok and os.path.getmtime(side) < os.path.getmtime(os.path.join(COQ, "Props", prop_file[:-2] + ".vo"))):
-        rc, out = sh("timeout 600 coqc -Q . Gosk Props/%s" % prop_file, cwd=COQ, timeout=700)
-        open(side, "w").write(out)
-        if rc != 0:
-            ok = False
+    mod = prop_file[:-2]
+    vo = os.path.join(COQ, "Props", mod + ".vo")
+    ok = os.path.exists(vo)
     closed = 0
     axioms = []
-    if ok:
+    if ok and thms:
+        side = os.path.join(BUILD, "assumptions_%s.txt" % mod)
+        if not os.path.exists(side) or os.path.getmtime(side) < os.path.getmtime(vo):
+            pa = os.path.join(BUILD, "PA_%s.v" % mod)
+            with open(pa, "w") as f:
+                f.write("From Gosk Require Import Props.%s.\n" % mod)
+                for t in thms:
+                    f.write("Print Assumptions %s.\n" % t)
+            rc, out = sh("timeout 900 coqc -Q %s Gosk %s" % (COQ, pa), cwd=BUILD, timeout=1000)
+            open(side, "w").write(out if rc == 0 else "FAILED\n" + out)
+            for ext in (".vo", ".glob", ".vok", ".vos"):
+                try:
+                    os.remove(os.path.join(BUILD, "PA_%s%s" % (mod, ext)))
+                except OSError:
+                    pass
         out = open(side).read()
+        if out.startswith("FAILED"):
+            ok = False
         closed = out.count("Closed under the global context")
-        for m in re.finditer(r"^Axioms:\n((?:.+\n)+)", out, re.M):
-            axioms.append(m.group(1))
-    return {"theorems": thms, "obligations": len(thms), "discharged": len(thms) if ok and closed >= len(thms) and not axioms else (closed if ok else 0),
+        axioms = re.findall(r"^Axioms:\n((?:.+\n)+)", out, re.M)
+    return {"theorems": thms, "obligations": len(thms), "discharged": min(closed, len(thms)) if ok and not axioms else 0,
             "vo": ok, "axioms": axioms}
 
 
@@ -295,6 +305,27 @@ def run_cases(cases, tag="c", jobs=None):
                 res[r["id"]] = r
             os.remove(op)
         os.remove(cp)
+    return res
+
+
+def run_ast(cases, tag="ast"):
+    """parse only (driver mode `ast`): id -> {"err":..., "sexp":[...]}"""
+    work = os.path.join(BUILD, "work")
+    os.makedirs(work, exist_ok=True)
+    cp = os.path.join(work, "%s-%d.in.jsonl" % (tag, os.getpid()))
+    op = os.path.join(work, "%s-%d.out.jsonl" % (tag, os.getpid()))
+    with open(cp, "w") as f:
+        for c in cases:
+            f.write(json.dumps(c) + "\n")
+    rc, out = sh([DRIVER, "-in", cp, "-out", op, "ast"], timeout=600)
+    if rc != 0:
+        raise BrokenTie("driver-ast", out[-2000:])
+    res = {}
+    for l in open(op):
+        r = json.loads(l)
+        res[r["id"]] = r
+    os.remove(cp)
+    os.remove(op)
     return res
 
 
